@@ -283,7 +283,9 @@ def run_switch(spec, out):
                 return
             e = float(np.max(np.abs(np.asarray(rs.snap["x"]) - live_next)) / max(1.0, float(np.max(np.abs(live_next)))))
             out.maxi("max_restart_equivalence_relerr", e)
-            if not (e <= XT):
+            if not (e <= XT) and tr.cb[ks]["snap"]["sk"].shape[0] > P0.n:
+                out.count("skipped_rank_deficient_memory")
+            elif not (e <= XT):
                 out.violate("continuation_differs_from_restart_on_new_objective", f"{name}: iterate {nit + 1} of the live run differs by {e:.3e} (relative) "
                             f"from the first iterate of a restart on f_B from the state of iteration {nit}: the matrices the live run used are "
                             f"not those of the pairs it reports", **tags)
